@@ -677,6 +677,75 @@ def run_nested_new(w) -> None:
         loaded.unload()
 
 
+SIBLING_NEW_SOURCE = '''
+import icontract
+
+
+@icontract.invariant(lambda self: HUB.inv("pos:" + repr(tuple(self)), self) and self[0] > 0)
+class Pos(tuple):
+    """An immutable value constructed by __new__ alone; the construction may build further values of the same class."""
+
+    def __new__(cls, x, sibling=None):
+        if sibling is not None:
+            SIBLINGS.append(("built", Pos(sibling)))
+        return super().__new__(cls, (x,))
+
+
+@icontract.invariant(lambda self: HUB.inv("node:" + str(self.v), self) and self.v > 0)
+class Node(icontract.DBC):
+    def __new__(cls, v, child=None):
+        self = super().__new__(cls)
+        self.v = v
+        self.child = None if child is None else cls(child)
+        return self
+
+
+class Leaf(Node):
+    def __new__(cls, v, child=None, extra=None):
+        self = super().__new__(cls, v, child)
+        self.extra = None if extra is None else Leaf(extra)
+        return self
+
+
+SIBLINGS = []
+'''
+
+
+def run_sibling_new(w) -> None:
+    """A __new__ that constructs ANOTHER object of the same class on its way: that object is a constructed object of its own and
+    must satisfy the invariants when its construction ends, whatever construction is in flight around it."""
+    import icontract  # pylint: disable=import-outside-toplevel
+
+    loaded = prog.load_source(SIBLING_NEW_SOURCE, w.scratch())
+    mod, hub = loaded.module, loaded.hub
+    try:
+        for tag, make, want in (
+                ("tuple-valid-sibling", lambda: mod.Pos(1, sibling=5), "returned"), ("tuple-invalid-sibling", lambda: mod.Pos(1, sibling=-5), "violation"),
+                ("tuple-invalid-alone", lambda: mod.Pos(-5), "violation"),
+                ("dbc-valid-child", lambda: mod.Node(1, child=2), "returned"), ("dbc-invalid-child", lambda: mod.Node(1, child=-2), "violation"),
+                ("derived-invalid-child-built-by-base", lambda: mod.Leaf(1, child=-2), "violation"),
+                ("derived-invalid-extra-built-by-derived", lambda: mod.Leaf(1, extra=-3), "violation"),
+                ("derived-valid", lambda: mod.Leaf(1, child=2, extra=3), "returned")):
+            hub.reset()
+            del mod.SIBLINGS[:]
+            w.count("constructions")
+            w.count("sibling_new_constructions")
+            w.case(("sibling-new", tag))
+            try:
+                make()
+                outcome = "returned"
+            except icontract.ViolationError:
+                outcome = "violation"
+            except BaseException as err:  # pylint: disable=broad-except
+                outcome = "raise {}: {}".format(type(err).__name__, str(err)[:120])
+            invs = [e.id for e in hub.events if e.kind == "inv"]
+            if outcome != want:
+                w.violation("C03/object-built-inside-new-of-its-own-class-not-checked" if outcome == "returned" else "C03/construction-with-sibling-fails",
+                            "{}: {} (expected {}); invariant evaluations {}".format(tag, outcome, want, invs), {"sibling_new": tag})
+    finally:
+        loaded.unload()
+
+
 def run_factory_new(w) -> None:
     """__new__ of a class without __init__ acting as a factory for its subclasses (which may have constructors)."""
     # (only on the contract-inheriting base: invariants on plain subclasses of invariant-carrying classes are a silent zone)
@@ -724,6 +793,7 @@ def run(w) -> None:
     if w.shard == 0:
         run_factory_new(w)
         run_nested_new(w)
+        run_sibling_new(w)
     n = 12000 if w.tier == "thorough" else 1200
     flavours = ["plain", "plain", "plain", "slots", "dataclass", "frozen", "own-new", "namedtuple"]
     for i in range(n):
@@ -751,6 +821,9 @@ def replay(case, w) -> None:
         return
     if "nested_new" in case:
         run_nested_new(w)
+        return
+    if "sibling_new" in case:
+        run_sibling_new(w)
         return
     plans = plans_from_json(case["plans"])
     oracle = Oracle(plans)
